@@ -101,6 +101,28 @@ Proof.
   cbn in H. discriminate.
 Qed.
 
+(* sessions: the guard of a session follows from the guard of the import sequence and of every
+   branch of the schema switch *)
+Lemma wf_seq_app D a b : wf_seq D (a ++ b) = wf_seq D a && wf_seq D b.
+Proof. unfold wf_seq. apply forallb_app. Qed.
+
+Lemma schema_seq_wf D T :
+  forallb (fun b => wf_seq D (snd b)) T = true -> forall v, wf_seq D (schema_seq T v) = true.
+Proof.
+  induction T as [|[names seq] tl IH]; intros H v; [reflexivity|].
+  cbn [forallb snd] in H. apply andb_true_iff in H. destruct H as [H1 H2]. cbn [schema_seq].
+  destruct (existsb (String.eqb v) names); [exact H1|now apply IH].
+Qed.
+
+Lemma session_wf D T imp :
+  wf_seq D imp = true -> forallb (fun b => wf_seq D (snd b)) T = true ->
+  forall vs, wf_seq D (session_seq T imp vs) = true.
+Proof.
+  intros Hi HT vs. unfold session_seq. rewrite wf_seq_app, Hi. cbn [andb].
+  induction vs as [|v tl IH]; [reflexivity|]. cbn [flat_map]. rewrite wf_seq_app, IH.
+  now rewrite (schema_seq_wf D T HT v).
+Qed.
+
 (* ------------------------------------------------------------------------------------ *)
 Set Implicit Arguments.
 Section Proofs.
@@ -451,6 +473,134 @@ Section Proofs.
     cbn [wf_seq forallb] in W. rewrite andb_true_iff in W. destruct W as [W1 W2].
     inversion C as [|x l V C']; subst.
     cbn [Cache.import_run map flat_map]. now rewrite (@step_quiet D st s V W1), (IH C' W2).
+  Qed.
+
+  (* ---- a start rebuilds only what is damaged ------------------------------------------------ *)
+  Lemma rebuilds_app a b : rebuilds (a ++ b) = (rebuilds a ++ rebuilds b)%list.
+  Proof. unfold rebuilds. now rewrite flat_map_app. Qed.
+
+  Lemma rebuilds_quiet st : rebuilds (quiet_events st) = [].
+  Proof. destruct st; reflexivity. Qed.
+
+  Lemma lob_events n build s s' ev v :
+    load_or_build dec n build s = Ok (s', ev, v) ->
+    ev = [ELoad n OLoaded] \/
+    exists s1 ev1 o, build s = Ok (s1, ev1) /\ ev = (ELoad n o :: ev1 ++ [ELoad n OLoaded])%list.
+  Proof.
+    unfold load_or_build. intros E.
+    destruct (load s n) as [| |v0].
+    - destruct (build s) as [[s1 ev1]| |]; try discriminate E.
+      destruct (load s1 n) as [| |v1]; try discriminate E. injection E as _ <- _. right. eauto.
+    - destruct (build s) as [[s1 ev1]| |]; try discriminate E.
+      destruct (load s1 n) as [| |v1]; try discriminate E. injection E as _ <- _. right. eauto.
+    - injection E as _ <- _. now left.
+  Qed.
+
+  Lemma rebuilds_wrap n o ev1 : rebuilds (ELoad n o :: ev1 ++ [ELoad n OLoaded]) = rebuilds ev1.
+  Proof.
+    change (ELoad n o :: ev1 ++ [ELoad n OLoaded])%list with ([ELoad n o] ++ ev1 ++ [ELoad n OLoaded])%list.
+    rewrite !rebuilds_app. cbn. now rewrite app_nil_r.
+  Qed.
+
+  Lemma dumps_wrap n o ev1 : dumps_of (ELoad n o :: ev1 ++ [ELoad n OLoaded]) = dumps_of ev1.
+  Proof.
+    change (ELoad n o :: ev1 ++ [ELoad n OLoaded])%list with ([ELoad n o] ++ ev1 ++ [ELoad n OLoaded])%list.
+    rewrite !dumps_of_app. cbn. now rewrite app_nil_r.
+  Qed.
+
+  Lemma compile_model_events D m s s1 ev1 :
+    compile_model enc conv_of scorer_of D m s = Ok (s1, ev1) ->
+    rebuilds ev1 = [NewModel m] /\ incl (dumps_of ev1) (step_files (NewModel m)).
+  Proof.
+    unfold compile_model. intros E.
+    destruct (has_file D m "converter"); [|discriminate E].
+    destruct (has_file D m "matrix").
+    - injection E as _ <-. split; [reflexivity|]. cbn. intros f I. exact I.
+    - destruct (has_file D m "scorer"); [discriminate E|]. injection E as _ <-.
+      split; [reflexivity|]. cbn. intros f [<-|[]]. now left.
+  Qed.
+
+  Lemma compile_dvt_events D p s s1 ev1 :
+    compile_dvt enc dvt_of D p s = Ok (s1, ev1) ->
+    rebuilds ev1 = [LoadDvt p] /\ incl (dumps_of ev1) (step_files (LoadDvt p)).
+  Proof.
+    unfold compile_dvt. intros E.
+    destruct (dvt_path_known p); [|discriminate E].
+    destruct (has_file D (dvt_dir p) "diacritics" && has_file D (dvt_dir p) "vowels"
+              && has_file D (dvt_dir p) "tones"); [|discriminate E].
+    injection E as _ <-. split; [reflexivity|]. cbn. intros f I. exact I.
+  Qed.
+
+  (* shape of the trace of one call: it compiles nothing but its own entry, and writes nothing
+     but the files of its own compile *)
+  Lemma step_events D st s s' ev v :
+    run_step D st s = Ok (s', ev, v) ->
+    (forall x, In x (rebuilds ev) -> x = st) /\
+    (forall f, In f (dumps_of ev) -> In st (rebuilds ev) /\ In f (step_files st)).
+  Proof.
+    intros E. destruct st as [p|m]; cbn [Cache.run_step] in E.
+    - unfold load_dvt in E.
+      destruct (load_or_build dec (dvt_fn p) (compile_dvt enc dvt_of D p) s) as [[[s1 e1] v1]| |] eqn:L;
+        try discriminate E.
+      injection E as _ <- _. destruct (lob_events _ _ _ L) as [->|[s2 [ev1 [o [B ->]]]]].
+      + cbn. split; [intros x []|intros f []].
+      + destruct (compile_dvt_events _ _ _ B) as [R I].
+        change (EDvt p :: ELoad (dvt_fn p) o :: ev1 ++ [ELoad (dvt_fn p) OLoaded])%list
+          with ([EDvt p] ++ (ELoad (dvt_fn p) o :: ev1 ++ [ELoad (dvt_fn p) OLoaded]))%list.
+        rewrite rebuilds_app, dumps_of_app, rebuilds_wrap, dumps_wrap, R. cbn [rebuilds dumps_of flat_map app].
+        split; [intros x [<-|[]]; reflexivity|]. intros f If. split; [now left|now apply I].
+    - unfold model_init, get_converter in E.
+      destruct (load_or_build dec (m ++ ".converter") (compile_model enc conv_of scorer_of D m) s)
+        as [[[s1 e1] v1]| |] eqn:L; try discriminate E.
+      assert (GS : exists sc, (get_scorer dec scorer_of D m s1 = Ok ([], sc))
+                              \/ (exists o, get_scorer dec scorer_of D m s1 = Ok ([ELoad (m ++ ".scorer") o], sc))
+                              \/ get_scorer dec scorer_of D m s1 = Raise).
+      { unfold get_scorer. destruct (has_file D m "matrix"); [eexists; now left|].
+        destruct (has_file D m "scorer.bin"); [|eexists; now left].
+        destruct (load s1 (m ++ ".scorer")); eexists; eauto. Unshelve. all: exact None. }
+      destruct GS as [sc [G|[[o G]|G]]]; rewrite G in E; try discriminate E;
+        (destruct (has_file D m "INFO"); [|discriminate E]); injection E as _ <- _.
+      + rewrite app_nil_r.
+        change (EModel m :: e1) with ([EModel m] ++ e1)%list. rewrite rebuilds_app, dumps_of_app.
+        cbn [rebuilds dumps_of flat_map app].
+        destruct (lob_events _ _ _ L) as [->|[s2 [ev1 [o' [B ->]]]]].
+        * cbn. split; [intros x []|intros f []].
+        * destruct (compile_model_events _ _ _ B) as [R I]. rewrite rebuilds_wrap, dumps_wrap, R.
+          split; [intros x [<-|[]]; reflexivity|]. intros f If. split; [now left|now apply I].
+      + change (EModel m :: e1 ++ [ELoad (m ++ ".scorer") o])%list
+          with ([EModel m] ++ e1 ++ [ELoad (m ++ ".scorer") o])%list.
+        rewrite !rebuilds_app, !dumps_of_app. cbn [rebuilds dumps_of flat_map app]. rewrite !app_nil_r.
+        destruct (lob_events _ _ _ L) as [->|[s2 [ev1 [o' [B ->]]]]].
+        * cbn. split; [intros x []|intros f []].
+        * destruct (compile_model_events _ _ _ B) as [R I]. rewrite rebuilds_wrap, dumps_wrap, R.
+          split; [intros x [<-|[]]; reflexivity|]. intros f If. split; [now left|now apply I].
+  Qed.
+
+  Theorem import_rebuilds_only_damaged D seq : forall s s' ev vs,
+    sane s -> wf_seq D seq = true -> import_run D seq s = Ok (s', ev, vs) ->
+    (forall st, In st (rebuilds ev) -> In st seq /\ ~ step_valid s st) /\
+    (forall f, In f (dumps_of ev) -> exists st, In st (rebuilds ev) /\ In f (step_files st)).
+  Proof.
+    induction seq as [|st tl IH]; intros s s' ev vs S W E.
+    - cbn in E. injection E as <- <- <-. split; [intros st []|intros f []].
+    - cbn [wf_seq forallb] in W. rewrite andb_true_iff in W. destruct W as [W1 W2].
+      destruct (@step_ok D st s S W1) as [s1 [e1 [E1 [T1 V1]]]].
+      cbn [Cache.import_run] in E. rewrite E1 in E.
+      destruct (import_run D tl s1) as [[[s2 e2] vs2]| |] eqn:E2; try discriminate E.
+      injection E as <- <- <-.
+      destruct (@step_events D st s s1 e1 _ E1) as [R1 D1].
+      destruct (IH s1 s2 e2 vs2 (sane_tp T1 S) W2 E2) as [R2 D2].
+      split.
+      + intros x I. rewrite rebuilds_app in I. apply in_app_or in I. destruct I as [I|I].
+        * rewrite (R1 x I) in *. split; [now left|]. intros V.
+          pose proof (@step_quiet D st s V W1) as Q. rewrite E1 in Q. injection Q as _ Q.
+          rewrite Q, rebuilds_quiet in I. exact I.
+        * destruct (R2 x I) as [It N]. split; [now right|]. intros V. apply N.
+          assert (Wx : wf_step D x = true) by (unfold wf_seq in W2; rewrite forallb_forall in W2; now apply W2).
+          exact (tp_keeps T1 (@governed_entry D x Wx) V).
+      + intros f I. rewrite dumps_of_app in I. apply in_app_or in I. destruct I as [I|I].
+        * destruct (D1 f I) as [A B]. exists st. split; [|exact B]. rewrite rebuilds_app. apply in_or_app. now left.
+        * destruct (D2 f I) as [x [A B]]. exists x. split; [|exact B]. rewrite rebuilds_app. apply in_or_app. now right.
   Qed.
 
   Lemma quiet_no_compile seq : existsb is_compile (flat_map quiet_events seq) = false.
